@@ -154,6 +154,11 @@ def trace_kernel(run, repo, rel, loop_form):
 
 def check(run):
     repo = run.repo
+    # per-item results spread back over repeated items (expect of lists / polynomials with repeated strings)
+    from ..rules import parallel as _par
+    for rel_ in (K.PY_S, K.TC_S, K.PY_P, K.TC_P):
+        for q_, f_ in sorted(repo.module(rel_).funcs.items()):
+            _par.check_unique_scatter(run, f_)
     eff = K.effects_of(repo)
     for rel in (K.PY_S, K.TC_S):
         f = repo.func(rel, 'StabilizerState.expect')
